@@ -1,90 +1,121 @@
-(* refcount: the monitors tied to the model, part 18: the codec's states satisfy the light invariant in EVERY configuration
-   (also with the constant resolver value), and with it the monitors' idea of the stored generation ([m_cur]) is the model's
-   (resolved, generation, error) in every configuration. *)
+(* refcount: the monitors tied to the model, part 18: the monitors' idea of the stored generation ([m_cur]) is the model's
+   (resolved, generation, error), in EVERY configuration (also with the constant resolver value) and also for the empty value
+   stored without an error, which leaves no trace in the target containers: there the monitors go by the events (the store section
+   of the newest goroutine stores iff there are a context and a reference; a context change, released() of the stored generation
+   and the removeRef section that drops the last reference take the stored result away). *)
 From Util Require Import Common.Base Common.ListLemmas RefCount.Model RefCount.Spec RefCount.Proofs RefCount.ProofsC08 RefCount.ProofsC08b
   RefCount.ProofsC09 RefCount.ProofsC10 RefCount.ProofsC10a RefCount.ProofsC10b RefCount.ProofsCodec RefCount.ProofsMon RefCount.ProofsMon2 RefCount.ProofsMon3
-  RefCount.ProofsMon4 RefCount.ProofsMon5 RefCount.ProofsMon6 RefCount.ProofsMon7 RefCount.ProofsMon17.
+  RefCount.ProofsMon4 RefCount.ProofsMon5 RefCount.ProofsMon6 RefCount.ProofsMon7 RefCount.ProofsMonG RefCount.ProofsMon10 RefCount.ProofsMon17 RefCount.ProofsMonE.
 Open Scope nat_scope.
 
 (* ------------------------------------------------------------------ *)
-(* reachable codec states, any configuration *)
-Definition HRc (h : hst) : Prop := exists k es, hs h = run repaired (init k) es /\ Forall (wfc_ev (hconst h)) es.
+(* which sections take a stored result away *)
+Definition rem_last (s : st) (r : nat) : bool :=
+  rin (nth r (refs s) ref0) && Nat.eqb (nrefs s) 1 && negb (keep s && Nat.eqb (verr s) 0).
 
-Lemma res_ok_wfc c g er z : res_ok er z = true -> val_okc c (n2n g) (res_val c g z) (n2n er) /\ n2n er <> 1.
+Definition clr (s : st) (e : ev) : bool :=
+  match e with
+  | ESetCtx c => negb (Nat.eqb (kctx s) c)
+  | EReleased g => match nth_error (gs s) g with Some x => Nat.eqb (nonce s) (gnonce x) | None => false end
+  | EAsync a => match nth_error (asyncs s) a with
+                | Some x => match as_pc x with AParked => Nat.eqb (nonce s) (as_nonce x) | ARan => false end
+                | None => false
+                end
+  | ERelSect a => match nth_error (relacts s) a with
+                  | Some y => match ra_pc y with RGate => rem_last s (ra_ref y) | RDone => false end
+                  | None => false
+                  end
+  | EFire c => match nth_error (conss s) c with
+               | Some x => match ww_firepc x with Some RGate => rem_last s (cref x) | _ => false end
+               | None => false
+               end
+  | _ => false
+  end.
+
+Definition clr_res (s s' : st) (b : bool) : Prop := if b then resolved s' = false else vf s' = vf s.
+
+Lemma remove_ref_clr s r : resolved s = true -> clr_res s (remove_ref s r) (rem_last s r).
 Proof.
-  unfold res_ok, res_val. intros H. apply andb_true_iff in H. destruct H as [H1 H2]. apply negb_true_iff in H1.
-  split.
-  - destruct (N.eqb_spec z 0) as [Ez|Ez]; [left; unfold vofc; destruct c; reflexivity|]. cbn [orb] in H2. apply andb_true_iff in H2. destruct H2 as [_ H2].
-    apply negb_true_iff in H2. right. split; [reflexivity|]. intros E. apply N.eqb_neq in H2. apply H2. apply N2Nat.inj. exact E.
-  - intros E. apply N.eqb_neq in H1. apply H1. apply N2Nat.inj. exact E.
+  intros Er. unfold remove_ref, rem_last, clr_res. destruct (nth_error (refs s) r) as [x|] eqn:Ex.
+  2:{ rewrite nth_overflow by (now apply nth_error_None). reflexivity. }
+  rewrite (nth_error_nth_d _ _ ref0 _ Ex). destruct (rin x) eqn:Ein; [|reflexivity]. cbn [andb].
+  set (y := {| rin := false; rflag := rflag x; rkind := rkind x; rlast := rlast x |}).
+  pose proof (nrefs_set_nth s r x y Ex) as NR. rewrite Ein in NR. cbn [b2n rin y] in NR.
+  set (s1 := set_refs s (set_nth (refs s) r y)) in *.
+  change (keep s1) with (keep s). change (resolved s1) with (resolved s). change (verr s1) with (verr s). rewrite Er. cbn [negb orb].
+  rewrite orb_false_r.
+  assert (E1 : Nat.eqb (nrefs s1) 0 = Nat.eqb (nrefs s) 1).
+  { destruct (Nat.eqb_spec (nrefs s1) 0), (Nat.eqb_spec (nrefs s) 1); try reflexivity; lia. }
+  rewrite E1. destruct (Nat.eqb (nrefs s) 1); cbn [andb]; [|reflexivity].
+  assert (E2 : negb (keep s) || negb (Nat.eqb (verr s) 0) = negb (keep s && Nat.eqb (verr s) 0)) by (destruct (keep s), (Nat.eqb (verr s) 0); reflexivity).
+  rewrite E2. destruct (negb (keep s && Nat.eqb (verr s) 0)); [apply shutdown_resolved | reflexivity].
 Qed.
 
-Lemma dec_wfc h e e0 rets : dec h e e0 rets -> wfc_ev (hconst h) e0.
+Lemma clr_step s e : resolved s = true -> (forall g, e <> EStore g) -> clr_res s (step repaired s e) (clr s e).
 Proof.
-  intros Hd. destruct Hd; try exact I.
-  - exact (res_ok_wfc (hconst h) g er 0%N H1).
-  - exact (res_ok_wfc (hconst h) g er z H1).
+  intros Er Hne. destruct e; cbn [step clr]; unfold clr_res.
+  - unfold set_context. destruct (Nat.eqb (kctx s) c); cbn [negb fst]; [reflexivity | apply start_resolve_resolved].
+  - unfold add_ref. set (s1 := set_refs s _). change (resolved s1) with (resolved s). rewrite Er. cbn [negb]. rewrite andb_false_r.
+    destruct k as [|[|k]]; cbn [kind_of fx_nilcb repaired]; try reflexivity; now rewrite vf_invoke.
+  - destruct (rkind (nth r (refs s) ref0)); try reflexivity; apply vf_release_call_by.
+  - unfold release_section. destruct (nth_error (relacts s) a) as [x|]; [|reflexivity]. destruct (ra_pc x); [|reflexivity].
+    set (sa := set_relacts s _). pose proof (remove_ref_clr sa (ra_ref x) Er) as E. unfold clr_res in E.
+    change (rem_last sa (ra_ref x)) with (rem_last s (ra_ref x)) in E. change (vf sa) with (vf s) in E.
+    set (s1 := remove_ref sa (ra_ref x)) in *. destruct (ra_cons x) as [c|]; [|exact E]. destruct (cpcv (getc s1 c)); exact E.
+  - destruct (nth_error (gs s) g) as [x|]; [|reflexivity]. unfold released_section.
+    destruct (Nat.eqb (nonce s) (gnonce x)); [apply start_resolve_resolved | reflexivity].
+  - unfold async_section. destruct (nth_error (asyncs s) a) as [x|]; [|reflexivity]. destruct (as_pc x); [|reflexivity].
+    unfold released_section. set (sa := set_asyncs s _). change (nonce sa) with (nonce s).
+    destruct (Nat.eqb (nonce s) (as_nonce x)); [apply start_resolve_resolved | reflexivity].
+  - apply vf_proceed.
+  - unfold resolver_return. destruct (nth_error (gs s) g) as [x|]; [|reflexivity]. destruct (gpcv x); reflexivity.
+  - exfalso. exact (Hne g eq_refl).
+  - unfold start_consumer, add_ref. set (s0 := set_conss s _). set (s1 := set_refs s0 _). change (resolved s1) with (resolved s). rewrite Er. cbn [negb]. rewrite andb_false_r.
+    destruct k as [|[|k]]; now rewrite vf_invoke.
+  - apply vf_cons_step.
+  - destruct (nth_error (conss s) c); reflexivity.
+  - unfold fire_section. destruct (nth_error (conss s) c) as [x|]; [|reflexivity]. destruct (ww_firepc x) as [[|]|]; try reflexivity.
+    exact (remove_ref_clr (setc s c _) (cref x) Er).
+  - apply vf_cb_return.
+  - destruct (Nat.eqb c 0); [reflexivity | apply vf_cancel_root].
 Qed.
 
-Lemma internal_wfc c e : internal_ev e -> wfc_ev c e.
-Proof. destruct e; cbn; auto; contradiction. Qed.
-
-Lemma HRc_step h e e0 rets : HRc h -> dec h e e0 rets -> HRc (fst (fin_of h (step repaired (hs h) e0) rets)).
+Lemma nth_parked_spec l : forall k i0 a, nth_parked l k i0 = Some a -> i0 <= a /\ exists x, nth_error l (a - i0) = Some x /\ as_pc x = AParked.
 Proof.
-  intros [k [es [Es Hw]]] Hd. unfold fin_of. cbn [fst]. unfold HRc. cbn [hs hconst].
-  destruct (settle_run (step repaired (hs h) e0)) as [es2 [E2 F2]].
-  exists k, (es ++ e0 :: es2). split.
-  - rewrite run_app2, <- Es, run_cons. exact E2.
-  - apply Forall_app. split; [exact Hw|]. constructor; [exact (dec_wfc h e e0 rets Hd)|].
-    eapply Forall_impl; [|exact F2]. apply internal_wfc.
+  induction l as [|y l IH]; intros k i0 a H; [discriminate|]. cbn [nth_parked] in H. unfold parked in H.
+  destruct (as_pc y) eqn:Ep.
+  - destruct k as [|k].
+    + inversion H; subst a. split; [lia|]. rewrite Nat.sub_diag. exists y. auto.
+    + destruct (IH k (S i0) a H) as [A [x [Hx Hp]]]. split; [lia|]. exists x. replace (a - i0) with (S (a - S i0)) by lia. auto.
+  - destruct (IH k (S i0) a H) as [A [x [Hx Hp]]]. split; [lia|]. exists x. replace (a - i0) with (S (a - S i0)) by lia. auto.
 Qed.
 
-Lemma HRc_mid h e e0 rets : HRc h -> dec h e e0 rets ->
-  HRc {| hs := step repaired (hs h) e0; hrel := length (rellog (step repaired (hs h) e0)); hconst := hconst h |}.
+(* while a result is stored, the goroutine of the current nonce is the stored generation *)
+Lemma cur_gen_eqb c s i : InvLt c s -> resolved s = true -> i < length (gs s) -> Nat.eqb (nonce s) (gnonce (getg s i)) = Nat.eqb (vgen s) i.
 Proof.
-  intros [k [es [Es Hw]]] Hd. unfold HRc. cbn [hs hconst]. exists k, (es ++ [e0]). split.
-  - now rewrite run_app, <- Es.
-  - apply Forall_app. split; [exact Hw|]. constructor; [exact (dec_wfc h e e0 rets Hd) | constructor].
+  intros [HN [_ [V1 _]]] Er Hi. destruct (V1 Er) as [_ [A2 [_ A4]]].
+  destruct (Nat.eqb_spec (vgen s) i) as [E|E]; [subst i; rewrite A4; apply Nat.eqb_refl|].
+  apply Nat.eqb_neq. intros En. apply E.
+  destruct (Nat.lt_trichotomy (vgen s) i) as [H|[H|H]]; [|exact H|].
+  - destruct (HN i Hi) as [_ N3]. specialize (N3 _ H). lia.
+  - destruct (HN _ A2) as [_ N3]. specialize (N3 _ H). lia.
 Qed.
-
-Lemma HRc_init cfg h : hinit cfg = Some h -> HRc h.
-Proof.
-  unfold hinit. intros H. destruct cfg as [|k [|c [|? ?]]]; try discriminate; inversion H; subst h; unfold HRc; cbn [hs hconst];
-    eexists _, []; (split; [reflexivity | constructor]).
-Qed.
-
-Lemma HRc_lt h : HRc h -> InvLt (hconst h) (hs h).
-Proof. intros [k [es [-> Hw]]]. now apply run_InvLt. Qed.
-
-Lemma HRc_chain h : HRc h -> InvCh (hs h).
-Proof. intros [k [es [-> _]]]. apply run_chain. Qed.
 
 (* ------------------------------------------------------------------ *)
 (* the monitors' check of the target containers against a generation *)
-Definition cur_chkc (c : bool) (s : st) (g e0 : N) : bool :=
-  if N.eqb e0 0 then N.eqb (nn (target s)) (if c then 7 else g + 1) && N.eqb (nn (terr s)) 0 else N.eqb (nn (terr s)) e0.
+Definition cur_chkc (c : bool) (s : st) (v0 e0 : N) : bool :=
+  if N.eqb e0 0 then N.eqb (nn (target s)) v0 && N.eqb (nn (terr s)) 0 else N.eqb (nn (terr s)) e0.
 
 Lemma nn_vofc c g : nn (vofc c g) = (if c then 7 else nn g + 1)%N.
 Proof. unfold vofc. destruct c; [reflexivity | apply nn_S]. Qed.
 
-Lemma cur_chkc_resolved c s : InvVc c s -> resolved s = true -> cur_chkc c s (nn (vgen s)) (nn (verr s)) = true.
+Lemma cur_chkc_resolved c s : InvVc c s -> resolved s = true -> cur_chkc c s (nn (value s)) (nn (verr s)) = true.
 Proof.
-  intros [V1 [_ V5]] Er. destruct (V1 Er) as [Hv _]. destruct (V5 Er) as [T1 T2]. unfold cur_chkc.
+  intros [_ [_ V5]] Er. destruct (V5 Er) as [T1 T2]. unfold cur_chkc.
   change 0%N with (nn 0). rewrite nn_eqb. destruct (Nat.eqb_spec (verr s) 0) as [E|E].
-  - destruct (T1 E) as [Et Ee]. destruct Hv as [Hv|[_ Hv]]; [|contradiction]. rewrite Et, Hv, Ee, nn_vofc, !N.eqb_refl. reflexivity.
+  - destruct (T1 E) as [Et Ee]. rewrite Et, Ee, !N.eqb_refl. reflexivity.
   - destruct (T2 E) as [_ Ee]. rewrite Ee. apply N.eqb_refl.
 Qed.
-
-Lemma cur_chkc_unresolved c s g e0 : InvVc c s -> resolved s = false -> cur_chkc c s g e0 = false.
-Proof.
-  intros [_ [V2 _]] Er. destruct (V2 Er) as [_ [_ [Et Ee]]]. unfold cur_chkc. rewrite Et, Ee. change (nn 0) with 0%N.
-  destruct (N.eqb_spec e0 0) as [E|E].
-  - destruct c; [reflexivity|]. destruct (N.eqb_spec 0 (g + 1)) as [E2|E2]; [exfalso; lia | reflexivity].
-  - apply N.eqb_neq. auto.
-Qed.
-
-Lemma cur_chkc_vf c s s' g e0 : vf s' = vf s -> cur_chkc c s' g e0 = cur_chkc c s g e0.
-Proof. intros H. destruct (vf_fields _ _ H) as [_ [_ [_ [_ [E F]]]]]. unfold cur_chkc. now rewrite E, F. Qed.
 
 Section CurC.
   Variables (m : mst) (h : hst) (e : list N) (e0 : ev) (rets : list N).
@@ -92,6 +123,7 @@ Section CurC.
   Hypothesis HP : Rproj m h.
   Hypothesis Hd : dec h e e0 rets.
   Hypothesis Hcur : m_cur m = cur_of (hs h).
+  Hypothesis Hem : Rempty m (hs h).
   Local Notation s := (hs h).
   Local Notation s1 := (step repaired (hs h) e0).
   Local Notation s' := (settle (step repaired (hs h) e0)).
@@ -101,64 +133,141 @@ Section CurC.
   Lemma Lt1 : InvLt (hconst h) s1. Proof. exact (HRc_lt _ (HRc_mid h e e0 rets HCh Hd)). Qed.
   Lemma Lt2 : InvLt (hconst h) s'. Proof. exact (HRc_lt _ (HRc_step h e e0 rets HCh Hd)). Qed.
 
-  Lemma u_cur_unfold_c :
-    u_cur m e p = match u_cur2 m e p with
-                  | Some (g, e1) => if cur_chkc (hconst h) s' g e1 then u_cur2 m e p else None
-                  | None => None
-                  end.
-  Proof. unfold u_cur, cur_chkc, u_vof. rewrite (rp_const m h HP). reflexivity. Qed.
-
   (* a store section runs while nothing is stored *)
   Lemma store_unresolved g x v hr er : nth_error (gs s) g = Some x -> gpcv x = GStore v hr er -> resolved s = false.
   Proof.
     intros Hx Hp. destruct Lt0 as [HN [_ HV]]. apply (pending_unresolved_c (hconst h) s g x (HRc_chain h HCh) HN HV Hx). unfold gdone. now rewrite Hp.
   Qed.
 
+  Lemma not_store_if_resolved : resolved s = true -> forall g, e0 <> EStore g.
+  Proof.
+    intros Er g E. destruct Hd; try discriminate E. rewrite (store_unresolved _ _ _ _ _ H H0) in Er. discriminate.
+  Qed.
+
+  (* the monitors' "cleared" is the model's *)
+  Lemma cleared_spec : resolved s = true -> u_cleared m e p = clr s e0.
+  Proof.
+    intros Er. unfold u_cleared. rewrite Hcur. unfold cur_of. rewrite Er.
+    assert (RL : forall r, u_removed_last m r && negb (m_keep m && N.eqb (nn (verr s)) 0) = rem_last s r).
+    { intros r. unfold u_removed_last, rem_last. rewrite (rp_in m h HP), (rp_keep m h HP), cntb_map. fold (nrefs s).
+      change 0%N with (nn 0). rewrite nn_eqb. rewrite <- (map_nth rin (refs s) ref0 r). reflexivity. }
+    destruct Hd; cbn [clr]; try reflexivity.
+    - cbn [po_rets pobs_of]. rewrite nz_nb. unfold set_context. destruct (Nat.eqb (kctx s) (n2n c)); reflexivity.
+    - rewrite (rp_raref m h HP), (nth_map_error ra_ref _ _ x 0 H), H, H0. apply RL.
+    - rewrite H. destruct (getg_nth_error s _ x H) as [Eg Hl]. rewrite <- Eg, (cur_gen_eqb _ s _ Lt0 Er Hl).
+      rewrite <- (nn_n2n g) at 1. apply nn_eqb.
+    - destruct (nth_parked_spec _ _ _ _ H) as [_ [x [Hx Hp]]]. rewrite Nat.sub_0_r in Hx. rewrite Hx, Hp.
+      rewrite (nth_error_nth_d _ _ async0 _ Hx) in H1. rewrite <- H1, (cur_gen_eqb _ s _ Lt0 Er H0).
+      rewrite <- (nn_n2n g) at 1. apply nn_eqb.
+    - rewrite (rp_cref m h HP), (nth_map_error cref _ _ x 0 H), H, H0. apply RL.
+  Qed.
+
+  Lemma cleared_unresolved : resolved s = false -> u_cleared m e p = false.
+  Proof. intros Er. unfold u_cleared. rewrite Hcur. unfold cur_of. now rewrite Er. Qed.
+
+  Lemma Eem' : Rempty (u_mst m e p) s'. Proof. exact (upd_empty m h e e0 rets HCh Hd Hem). Qed.
+
+  (* the value of the stored generation as the monitors compute it *)
+  Lemma vofe_cur : resolved s' = true -> verr s' = 0 -> u_vofe m e (nn (vgen s')) = nn (value s').
+  Proof.
+    intros Er Ee. unfold u_vofe, u_vof. rewrite (rp_const m h HP). destruct Eem' as [[_ _ RC] _]. cbn [m_empty u_mst] in RC. specialize (RC Er). unfold Pz in RC.
+    destruct Lt2 as [_ [_ [V1 _]]]. destruct (V1 Er) as [Hv _].
+    destruct (mem (nn (vgen s')) (u_empty m e)) eqn:Em.
+    - now rewrite (proj1 RC eq_refl).
+    - destruct Hv as [Hv|Hv]; [now rewrite Hv, nn_vofc | destruct RC as [_ RC]; specialize (RC Hv); discriminate].
+  Qed.
+
+  Lemma u_cur_unfold_c :
+    u_cur m e p = if u_cleared m e p then None
+                  else match u_cur2 m e p with
+                       | Some (g, e1) => if cur_chkc (hconst h) s' (u_vofe m e g) e1 then u_cur2 m e p else None
+                       | None => None
+                       end.
+  Proof. reflexivity. Qed.
+
   Lemma upd_cur_c : u_cur m e p = cur_of s'.
   Proof.
-    rewrite u_cur_unfold_c. destruct Lt0 as [HN [HS HV0]]. destruct Lt1 as [_ [_ HV1]].
-    pose proof (settle_vf s1) as V'. rewrite (cur_of_vf _ _ V').
-    assert (CK : forall g e1, cur_chkc (hconst h) s' g e1 = cur_chkc (hconst h) s1 g e1) by (intros; now apply cur_chkc_vf).
+    rewrite u_cur_unfold_c. pose proof (settle_vf s1) as V'.
     assert (NS : (forall g, e0 <> EStore g) -> u_cur2 m e p = cur_of s).
     { intros Hne. unfold u_cur2, u_stored_now. destruct Hd; try exact Hcur. exfalso. exact (Hne _ eq_refl). }
-    assert (Gen : (forall g, e0 <> EStore g) ->
-                  match u_cur2 m e p with Some (g, e1) => if cur_chkc (hconst h) s' g e1 then u_cur2 m e p else None | None => None end = cur_of s1).
-    { intros Hne. rewrite (NS Hne). destruct (vkeep_step s e0 Hne) as [Er|Ev].
-      - unfold cur_of at 3. rewrite Er. unfold cur_of. destruct (resolved s); [|reflexivity]. now rewrite CK, (cur_chkc_unresolved _ s1 _ _ HV1 Er).
-      - rewrite (cur_of_vf _ _ Ev). unfold cur_of. destruct (resolved s) eqn:Er; [|reflexivity].
-        now rewrite CK, (cur_chkc_vf _ _ _ _ _ Ev), (cur_chkc_resolved _ s HV0 Er). }
-    destruct Hd; try (apply Gen; intros g0; discriminate).
-    (* the store section *)
-    pose proof (store_unresolved (n2n g) x v hr e H H0) as Er.
-    destruct (getg_nth_error s _ x H) as [Eg Hl]. assert (Hv : val_okc (hconst h) (n2n g) v e) by (apply (HS _ Hl v hr e); now rewrite Eg).
-    pose proof (store_vf s (n2n g) x v hr e H H0) as SV. cbv zeta in SV. cbn [step] in *.
-    assert (Hm : m_cur m = None) by (rewrite Hcur; unfold cur_of; now rewrite Er).
-    destruct HV0 as [_ [V2 _]]. destruct (V2 Er) as [_ [_ [Et Ee]]].
-    unfold u_cur2, u_stored_now, u_vof. rewrite (rp_const m h HP), Hm. cbn [po_target po_terr pobs_of].
-    destruct (vf_fields _ _ V') as [_ [_ [_ [_ [Et' Ee']]]]]. rewrite Et', Ee'.
-    assert (Hg : N.eqb 0 (if hconst h then 7 else g + 1) = false) by (destruct (hconst h); [reflexivity | apply N.eqb_neq; lia]).
-    destruct (Nat.eqb (nonce s) (gnonce x)).
-    - destruct SV as [A [B [C [D [E F]]]]]. rewrite E, F. unfold cur_of. rewrite A, C, D, nn_n2n.
-      destruct (Nat.eqb_spec e 0) as [E0|E0].
-      + destruct Hv as [Hv|[_ Hv]]; [|contradiction]. rewrite Hv, nn_vofc, nn_n2n, !N.eqb_refl. cbn [andb].
-        rewrite CK. unfold cur_chkc. rewrite E, F. rewrite E0. cbn [Nat.eqb]. rewrite Hv, nn_vofc, nn_n2n, !N.eqb_refl. reflexivity.
-      + rewrite Et. change (nn 0) with 0%N. rewrite Hg. cbn [andb].
-        rewrite nz_nn. destruct (Nat.eqb_spec e 0) as [|_]; [contradiction|]. cbn [negb andb].
-        rewrite CK. unfold cur_chkc. rewrite F. destruct (Nat.eqb_spec e 0) as [|_]; [contradiction|].
-        change 0%N with (nn 0). rewrite nn_eqb. destruct (Nat.eqb_spec e 0) as [|_]; [contradiction|]. rewrite N.eqb_refl. reflexivity.
-    - destruct (vf_fields _ _ SV) as [A [_ [_ [_ [E F]]]]]. rewrite E, F, Et, Ee. change (nn 0) with 0%N.
-      rewrite Hg. cbn. unfold cur_of. now rewrite A, Er.
+    destruct (resolved s) eqn:Er.
+    - (* something is stored: it goes away, or it stays as it is *)
+      pose proof (not_store_if_resolved Er) as Hne. rewrite (cleared_spec Er), (NS Hne).
+      pose proof (clr_step s e0 Er Hne) as CS. unfold clr_res in CS. destruct (clr s e0).
+      + unfold cur_of. destruct (vf_fields _ _ V') as [A _]. now rewrite A, CS.
+      + assert (V2 : vf s' = vf s) by congruence. rewrite (cur_of_vf _ _ V2). unfold cur_of at 1 3. rewrite Er.
+        destruct (vf_fields _ _ V2) as [A [B [C [D _]]]].
+        assert (Er' : resolved s' = true) by congruence.
+        destruct Lt2 as [_ [_ HV2]]. pose proof (cur_chkc_resolved _ s' HV2 Er') as CK. rewrite <- C, <- D.
+        unfold cur_chkc in *. change 0%N with (nn 0) in *. rewrite nn_eqb in *.
+        destruct (Nat.eqb_spec (verr s') 0) as [E0|E0]; [rewrite (vofe_cur Er' E0)|]; rewrite CK; unfold cur_of; rewrite Er, C, D; reflexivity.
+    - (* nothing is stored *)
+      rewrite (cleared_unresolved Er).
+      assert (Cases : (forall g, e0 <> EStore g) \/ exists g, e0 = EStore g) by (destruct e0; try (left; intros; discriminate); right; eauto).
+      destruct Cases as [Hne|[g0 He0]].
+      + rewrite (NS Hne). unfold cur_of. rewrite Er. destruct (vf_fields _ _ V') as [A _]. rewrite A.
+        destruct (vkeep_step s e0 Hne) as [E|E]; [now rewrite E|]. destruct (vf_fields _ _ E) as [A' _]. now rewrite A', Er.
+      + (* the store section *)
+        clear NS. destruct Lt0 as [HN [HS HV0]]. pose proof (HRc_lc h HCh) as HLc. pose proof (HRc_L5 h HCh) as HL5.
+        destruct Hd; try discriminate He0. clear He0.
+        destruct (getg_nth_error s _ x H) as [Eg Hl]. assert (Hv : val_okc (hconst h) (n2n g) v e) by (apply (HS _ Hl v hr e); now rewrite Eg).
+        assert (Hnd : gdone x = false) by (unfold gdone; now rewrite H0).
+        pose proof (store_vf s (n2n g) x v hr e H H0) as SV. cbv zeta in SV. cbn [step] in *.
+        assert (Hm : m_cur m = None) by (rewrite Hcur; unfold cur_of; now rewrite Er).
+        destruct HV0 as [_ [V2 _]]. destruct (V2 Er) as [_ [_ [Et Ee]]].
+        destruct Hem as [[_ RS _] [_ ROS _]].
+        assert (AS : at_store (n2n g) v hr e (gs s)) by (exists x; auto).
+        pose proof (RS _ _ _ _ AS) as MemE. pose proof (ROS _ _ _ _ AS) as MemO. rewrite nn_n2n in MemE, MemO. unfold Pz in MemE. unfold Pzz in MemO.
+        (* the newest goroutine with a context and a reference is the current generation, and only it *)
+        match goal with |- context [u_cur2 m _ ?q] => set (pp := q) end.
+        assert (Crit : Nat.eqb (S (n2n g)) (u_ng pp) && nz (u_ctx m [9%N; g]) && Nat.ltb 0 (u_nin m [9%N; g]) = Nat.eqb (nonce s) (gnonce x)).
+        { unfold u_ng, pp. cbn [po_gs pobs_of u_ctx u_nin u_in]. rewrite map_length, settle_len_gs.
+          assert (LG : length (gs (store s (n2n g))) = length (gs s)).
+          { destruct (store_gs_nonce s (n2n g) x v hr e H H0) as [EG _]. rewrite EG. apply length_gs_setg. }
+          unfold u_nin. cbn [u_in]. rewrite LG, (rp_ctx m h HP), (rp_in m h HP), cntb_map, nz_nn. fold (nrefs s).
+          destruct (Nat.eqb_spec (nonce s) (gnonce x)) as [En|En].
+          - rewrite <- Eg in En. destruct (HLc _ Hl (eq_sym En) ltac:(now rewrite Eg)) as [Hk Hn].
+            assert (Enew : S (n2n g) = length (gs s)).
+            { destruct (Nat.eq_dec (S (n2n g)) (length (gs s))) as [E|E]; [exact E|]. exfalso.
+              destruct (HN (S (n2n g)) ltac:(lia)) as [N1 N3]. specialize (N3 (n2n g) ltac:(lia)). lia. }
+            rewrite Enew, Nat.eqb_refl. destruct (Nat.eqb_spec (kctx s) 0); [contradiction|]. destruct (Nat.ltb_spec 0 (nrefs s)); [reflexivity | lia].
+          - destruct (Nat.eqb_spec (S (n2n g)) (length (gs s))) as [Enew|Enew]; [|reflexivity]. cbn [andb].
+            destruct (Nat.eqb_spec (kctx s) 0) as [Ek|Ek]; [reflexivity|]. cbn [negb andb].
+            destruct (Nat.ltb_spec 0 (nrefs s)) as [Hn|Hn]; [|reflexivity]. exfalso.
+            destruct HL5 as [E|[E|[E|[g' [Hg' Hn']]]]]; [contradiction | lia | congruence|].
+            assert (g' = n2n g) by lia. subst g'. rewrite Eg in Hn'. congruence. }
+        unfold pp in *. clear pp. unfold u_cur2, u_stored_now. rewrite Hm. change (u_emptyok m [9%N; g]) with (m_emptyok m). cbn [po_target po_terr pobs_of].
+        unfold cur_chkc. rewrite (cur_of_vf _ _ V'). destruct (vf_fields _ _ V') as [A' [_ [_ [_ [Et' Ee']]]]]. rewrite !Et', !Ee'.
+        assert (Hg : N.eqb 0 (u_vof m g) = false) by (unfold u_vof; destruct (m_const m); [reflexivity | apply N.eqb_neq; lia]).
+        destruct (mem g (m_emptyok m)) eqn:EmO.
+        * (* the empty value without an error *)
+          destruct (proj1 MemO eq_refl) as [Ev0 Ee0]. subst v e. rewrite Crit.
+          destruct (Nat.eqb (nonce s) (gnonce x)).
+          -- destruct SV as [A [B [C [D [E F]]]]]. cbn [Nat.eqb] in E, F. unfold cur_chkc. cbn [N.eqb]. rewrite E, F.
+             unfold u_vofe. change (u_empty m [9%N; g]) with (m_empty m). rewrite (proj2 MemE eq_refl). cbn [nn N.of_nat N.eqb andb].
+             unfold cur_of. now rewrite A, C, D, nn_n2n.
+          -- destruct (vf_fields _ _ SV) as [A _]. unfold cur_of. now rewrite A, Er.
+        * assert (Hnz : ~ (v = 0 /\ e = 0)) by (intros Hx; pose proof (proj2 MemO Hx) as Hy; congruence).
+          destruct (Nat.eqb (nonce s) (gnonce x)).
+          -- destruct SV as [A [B [C [D [E F]]]]]. rewrite E, F. unfold cur_of. rewrite A, C, D, nn_n2n.
+             destruct (Nat.eqb_spec e 0) as [E0|E0].
+             ++ assert (Hv0 : v <> 0) by (intros Hx; apply Hnz; auto). destruct Hv as [Hv|Hv]; [|contradiction].
+                assert (Evof : nn v = u_vof m g) by (rewrite Hv, nn_vofc, nn_n2n; unfold u_vof; now rewrite (rp_const m h HP)).
+                assert (EmE : mem g (m_empty m) = false) by (destruct (mem g (m_empty m)) eqn:X; [exfalso; apply Hv0; now apply MemE | reflexivity]).
+                rewrite Evof, E0. change (nn 0) with 0%N. rewrite !N.eqb_refl. cbn [andb N.eqb].
+                unfold u_vofe. change (u_empty m [9%N; g]) with (m_empty m). rewrite EmE, !N.eqb_refl. reflexivity.
+             ++ rewrite Et. change (nn 0) with 0%N. rewrite Hg. cbn [andb].
+                rewrite nz_nn. destruct (Nat.eqb_spec e 0) as [|_]; [contradiction|]. cbn [negb andb].
+                change 0%N with (nn 0). rewrite nn_eqb. destruct (Nat.eqb_spec e 0) as [|_]; [contradiction|]. rewrite N.eqb_refl. reflexivity.
+          -- destruct (vf_fields _ _ SV) as [A [_ [_ [_ [E F]]]]]. rewrite E, F, Et, Ee. change (nn 0) with 0%N.
+             rewrite Hg. cbn. unfold cur_of. now rewrite A, Er.
   Qed.
 
   (* within one event a stored generation is not replaced by another *)
   Lemma vgen_same_c : resolved s = true -> resolved s' = true -> vf s' = vf s.
   Proof.
     intros Er Er'. pose proof (settle_vf s1) as V'. rewrite V'. destruct (vf_fields _ _ V') as [A _]. rewrite A in Er'.
-    assert (Cases : (forall g, e0 <> EStore g) \/ exists g x v hr er, e0 = EStore g /\ nth_error (gs s) g = Some x /\ gpcv x = GStore v hr er).
-    { destruct Hd; try (left; intros; discriminate). right. eauto 10. }
-    destruct Cases as [Hne|[g [x [v [hr [er [He0 [Hx Hp]]]]]]]].
-    - destruct (vkeep_step s e0 Hne) as [E|E]; [congruence | exact E].
-    - rewrite (store_unresolved g x v hr er Hx Hp) in Er. discriminate.
+    destruct (vkeep_step s e0 (not_store_if_resolved Er)) as [E|E]; [congruence | exact E].
   Qed.
 
   (* the monitors see an invalidation only when the stored result really went away *)
@@ -169,13 +278,13 @@ Section CurC.
 
   Lemma lost_unresolved_c g : u_lost m e p = Some g -> resolved s' = false.
   Proof.
-    unfold u_lost, u_lost0. rewrite Hcur, upd_cur_c. unfold cur_of at 1 3.
+    intros Hl. pose proof (lost_resolved_c g Hl) as Er. revert Hl.
+    unfold u_lost, u_lost0. rewrite Hcur, upd_cur_c. unfold cur_of at 1 3. rewrite Er.
     pose proof vgen_same_c as VS. destruct Lt0 as [_ [_ [V1 _]]]. pose proof (settle_vf s1) as V'.
-    destruct (resolved s) eqn:Er; [|destruct Hd; discriminate].
-    unfold cur_of. destruct (resolved s') eqn:Er'; [|reflexivity]. destruct (vf_fields _ _ (VS eq_refl eq_refl)) as [_ [_ [_ [Eg _]]]]. rewrite Eg, N.eqb_refl.
+    unfold cur_of. destruct (resolved s') eqn:Er'; [|reflexivity]. destruct (vf_fields _ _ (VS Er eq_refl)) as [_ [_ [_ [Eg _]]]]. rewrite Eg, N.eqb_refl.
     destruct Hd; try discriminate. destruct (N.eqb_spec (nn (vgen s)) g0) as [Eg0|Eg0]; [|discriminate]. intros _. exfalso.
     assert (Evg : vgen s = n2n g0) by (rewrite <- Eg0; now rewrite n2n_nn).
-    destruct (V1 eq_refl) as [_ [_ [_ A4]]]. rewrite Evg in A4.
+    destruct (V1 Er) as [_ [_ [_ A4]]]. rewrite Evg in A4.
     destruct (getg_nth_error s _ x H) as [Ex _]. rewrite Ex in A4.
     destruct (vf_fields _ _ V') as [A _]. rewrite A in Er'. cbn [step] in Er'. rewrite H in Er'. unfold released_section in Er'.
     rewrite A4, Nat.eqb_refl, start_resolve_resolved in Er'. discriminate.
